@@ -141,25 +141,33 @@ public:
     auto curr_size = kv_properties_->Size();
     if (!IsValidKey(key) || !IsValidValue(value))
     {
-      // max size reached or invalid key/value. Returning empty TraceState
+      // invalid key/value. Returning empty TraceState
       return TraceState::GetDefault();
     }
-    auto allocate_size = curr_size;
-    if (curr_size < kMaxKeyValuePairs)
+    std::string unused;
+    const bool key_present = kv_properties_->GetValue(key, unused);
+    // A key that is not present yet cannot be added to a full list: return a copy.
+    const bool add_first = key_present || curr_size < kMaxKeyValuePairs;
+    auto allocate_size   = curr_size;
+    if (add_first && !key_present)
     {
       allocate_size += 1;
     }
     nostd::shared_ptr<TraceState> ts(new TraceState(allocate_size));
-    if (curr_size < kMaxKeyValuePairs)
+    if (add_first)
     {
-      // add new field first
+      // add new or updated field first
       ts->kv_properties_->AddEntry(key, value);
     }
-    // add rest of the fields.
-    kv_properties_->GetAllEntries([&ts](nostd::string_view key, nostd::string_view value) {
-      ts->kv_properties_->AddEntry(key, value);
-      return true;
-    });
+    // add rest of the fields, skipping the previous entry of an updated key.
+    kv_properties_->GetAllEntries(
+        [&ts, &key, add_first](nostd::string_view e_key, nostd::string_view e_value) {
+          if (!add_first || key != e_key)
+          {
+            ts->kv_properties_->AddEntry(e_key, e_value);
+          }
+          return true;
+        });
     return ts;
   }
 
